@@ -366,6 +366,10 @@ def run(ck):
     ck.run_cases("rw", cases, chunk=1)
     ck.run_cases("hmc", hmc_cases(ck), chunk=1)
     ck.run_cases("ens", ens_cases(ck), chunk=1)
+    # each chain run under parallel tempering: the exchange move itself (shared with C08's exchange evaluator)
+    ck.run_cases("exchange", [dict(chains=k, N=N, seed=1 + ck.seed, presteps=pre, ladder=lad)
+                              for k, N, pre, lad in (("GibbsChain", 2, 0, "sorted"), ("GibbsChain", 3, 1, "unsorted"), ("HamiltonianChain", 2, 1, "unsorted"),
+                                                     ("PcaChain", 3, 0, "sorted"), ("GibbsChain", 4, 1, "unsorted"))], chunk=1)
     ck.rule = ("choice-tree exploration of one real take_step from every state of each lattice target (every (state, draw) pair on the listed "
                "alphabets, all accept/reject outcomes up to R rejections); distinct non-trivial = (sampler/limits, decision kind, rejections, "
                "kernels with off-diagonal moves per target/T/dimension)")
@@ -756,3 +760,12 @@ def ens_cases(ck):
 
 
 EVALUATORS["ens"] = ev_ens
+
+
+def ev_exchange(case):
+    from checks.c08 import ev_exchange as _ev
+
+    return _ev(case)
+
+
+EVALUATORS["exchange"] = ev_exchange
